@@ -69,6 +69,10 @@ def settle(h, n=12):
         h.advance_time_and_run(0)
 
 
+def _nop(**kwargs):
+    pass
+
+
 def _mk(m, n):
     def hnd(queue=None, **kwargs):
         run = _H['sink'][0]
@@ -156,7 +160,12 @@ class ModeRun:
                 kw['mode_priority'] = PRIO[m] + 7
         via = self.via if self.via != 'mixed' else self.rnd.choice(['event', 'direct'])
         if via == 'event':
-            self.m.events.post('vm_%s_%s' % (kind, m), **kw)     # logged when dispatched (see _mk_req)
+            # logged when dispatched (see _mk_req).  Some starts come as queue events: modes B and C use_wait_queue and
+            # hold such an event until they stop
+            if kind == 'start' and self.rnd.random() < 0.4:
+                self.m.events.post_queue('vm_%s_%s' % (kind, m), callback=_nop, **kw)
+            else:
+                self.m.events.post('vm_%s_%s' % (kind, m), **kw)
             return
         self.ev.append(rec)
         if kind == 'start':
